@@ -462,17 +462,18 @@ class MpSerSuite(Suite):
         n = getattr(self, "n", 3000 if tier == "quick" else 200000)
         cases = []
         sizes = [0, 1, 15, 16, 17, 31, 32, 33, 255, 256, 257]
-        big = [65535, 65536] if tier == "thorough" else []
+        len4 = self.cfg.get("STRING_LENGTH_SIZE", 2) == 4      # only then can strings of 65536 bytes and more be stored at all
+        big = ([65535, 65536] if len4 else [65535]) if tier == "thorough" else []
         for z in sizes + big:
             cases.append(Case("mpser t:S" + "61" * z, kind="ser"))
-            if z <= 300 or tier == "thorough":
+            if z <= 300:
                 cases.append(Case("mpser t:[" + ",".join(["N"] * z) + "]", kind="ser"))
                 cases.append(Case("mpser t:{" + ",".join("%s:T" % (b"k%d" % i).hex() for i in range(z)) + "}", kind="ser"))
                 cases.append(Case("mpser t:[[" + ",".join(["U1"] * z) + "],S62]", kind="ser"))
         # 16/32-bit count and length headers on both sides of 65535/65536 (objects through MessagePack input: building 65536 members
         # through operator[] is quadratic); the 65536-member cases are judged by the oracle only (the list-based model is quadratic there)
         for z in (65535, 65536):
-            if z <= 65535:            # STRING_LENGTH_SIZE=2: longer strings cannot be stored
+            if z <= 65535 or len4:
                 cases.append(Case("mpser t:S" + "61" * z, kind="ser"))
             cases.append(Case("mpser m:" + (b"\xdc" + z.to_bytes(2, "big") if z < 65536 else b"\xdd" + z.to_bytes(4, "big")).hex() + "c0" * z, kind="ser",
                               mline="mpspec -", nocompare=True))
@@ -488,7 +489,8 @@ class MpSerSuite(Suite):
             cases.append(Case("mpser t:f%08x" % b, kind="ser"))
         for b in mpack.BOUNDARY_F64 + gens.BOUND_F64:
             cases.append(Case("mpser t:d%016x" % b, kind="ser"))
-        for z in [0, 1, 2, 3, 4, 5, 7, 8, 9, 15, 16, 17, 31, 255, 256, 257] + ([65535, 65536] if tier == "thorough" else []):
+        # binary/extension values are stored with their header (3/4 bytes for the 16-bit forms): 65531 is the largest payload that fits a 2-byte length
+        for z in [0, 1, 2, 3, 4, 5, 7, 8, 9, 15, 16, 17, 31, 255, 256, 257] + (([65531, 65535, 65536] if len4 else [65531]) if tier == "thorough" else []):
             for t in (("Bn", bytes([0x41]) * z), ("X", 5, bytes([0x42]) * z), ("A", [("X", 200, bytes([0x43]) * z), ("I", 7)])):
                 cases.append(Case("mpser t:" + show_tree(t), kind="ser", want=show_tree(gens.stored_tree(t))))
         for i in range(n):
